@@ -636,6 +636,7 @@ pub fn op_name(op: &R1Op) -> &'static str {
         R1Op::AllocElem { .. } => "alloc_element",
         R1Op::AllocAffine { .. } => "alloc_affine",
         R1Op::WitnessOffer { .. } => "new_witness",
+        R1Op::WitnessOfferAffine { .. } => "new_witness_affine",
         R1Op::AllocUnchecked { .. } => "new_variable_omit_prime_order_check",
         R1Op::ZeroVar => "zero",
         R1Op::ConstantVar { .. } => "constant",
